@@ -216,7 +216,7 @@ def main(ctx):
             return rec.fail(hd, "raised %s: %s [at %s:%d]" % (type(e).__name__, e, tb.filename.split("/")[-1], tb.lineno))
         rec.ok(hd, outcome="nofind:%s" % proj, nontrivial=nontriv(hd), calls=calls)
 
-    ctx.lattice("inverse-nofind", headers, one_nofind, bounds=dict(headers=len(headers)))
+    ctx.lattice("inverse-nofind", headers, one_nofind, wstrict=True, bounds=dict(headers=len(headers)))
 
     # ------------------------------------------------- inverse with root finding
     FPTS = [(1.0, 1.0), (2048.0, 4096.0), (1024.0, 2048.0), (700.25, 3100.5), (2048.0, 1.0), (1.0, 4096.0),
@@ -453,7 +453,7 @@ def main(ctx):
                  w_modules, depth=ctx.pick(4, 5), check=w_check, result_edits=True)
 
     # ------------------------------------------------ long arrays through the vectorised conversions (mc/longarr.py)
-    from mc.longarr import tiled_elementwise, PERIOD
+    from mc.longarr import tiled_elementwise, PERIOD, marks
     LW = {k: WCS(dict(KINDS[k])) for k in ("tan", "tpv", "sip")}
 
     def pix_base():
@@ -471,4 +471,4 @@ def main(ctx):
     for k, w in LW.items():
         wspecs["%s.image2sky" % k] = (pix_base, (lambda x, y, w=w: w.image2sky(x, y)))
         wspecs["%s.sky2image(find=False)" % k] = (make_sky_base(w), (lambda lon, lat, w=w: w.sky2image(lon, lat, find=False)))
-    tiled_elementwise(ctx, "long-arrays", wspecs, ctx.pick((100000, 1000000), (65536, 100000, 1000000, 1048576, 2000000)))
+    tiled_elementwise(ctx, "long-arrays", wspecs, marks(ctx), small=lambda l: not ((not ctx.quick) and l.startswith("tan")) , small_marks=marks(ctx, small=True))
